@@ -32,6 +32,8 @@ CLAIMED = {
           "The clause 'for every supported column type, decoded by an independent decoder' is decided only up to 'what the codec returns is what is framed': pgx's reflection-planned codecs are dependency code and cannot be encoded (stated not-applicable part). Bounds: <= 2/3 columns, values <= 1/2 bytes.", "DESIGN.md §7 C09"),
  "C10": C("The limit arithmetic is decided over the FULL range: every limit 1..2^31-1 and every 32-bit declared length in one solver query per assertion (size-exceeded iff declared-4 > L or declared < 4; header-only read; no allocation; error carries size and limit), NewReader for all 2^64 settings, Slurp for every limit/size/segmentation in the bound, and sessions with an oversized message followed by a normal one.",
           "Bounds: H10a continues past the check only for bodies <= N=3/6; Slurp L<=2/3, size <= 3L+2; 64-bit int.", "DESIGN.md §7 C10"),
+ "C11": C("Server.serve on an SSLRequest followed by solver-chosen stuffed plaintext (nothing, a complete startup packet for another user, arbitrary bytes) under every TLS configuration (nil, no certificates, certificates): with certificates the only raw byte is 'S', startup parameters and all replies live inside the TLS layer, and the stuffed plaintext - which the real bufio reader HAS already buffered - is never interpreted; without certificates the reply is 'N' and the same connection continues in plaintext with a fresh startup packet; a CancelRequest after the refusal closes silently.",
+          "crypto/tls itself cannot be encoded: tls.Server is an opaque model (separate plaintext stream, separate capture, never hands raw bytes to its caller); wire confidentiality is trusted. Counterexamples and witnesses are replayed natively with a REAL TLS client over net.Pipe and a wire tap that checks that everything after 'S' is TLS records. Bounds: stuffed bytes <= 4/9; inner session = startup + Terminate.", "DESIGN.md §7 C11"),
  "C12": C("Server.serve on a startup packet whose parameter area is N arbitrary bytes (duplicates, empty values, missing terminators are solver-reachable) with 0-2 configured global parameters and an optional version string, against a reference parse: callbacks see exactly the client's pairs, the reply is AuthenticationOk, one ParameterStatus per configured key plus the built-ins with the stated values (session_authorization = user), then exactly one ReadyForQuery(idle); the configured map is not modified; a CancelRequest first or after an SSLRequest is closed without reply or callback.",
           "Bounds: N=8/10. Map iteration modelled as insertion order (the statement does not order ParameterStatus messages). Cross-connection leakage is C15.", "DESIGN.md §7 C12"),
  "C13": C("CopyReader.Read step by step over K client messages with SYMBOLIC type byte and body (CopyData -> payload byte-exact in order, Flush/Sync skipped, CopyDone -> io.EOF, CopyFail or any other type -> non-nil non-EOF, the reader itself writes nothing), and the whole COPY cycle through handleSimpleQuery with a statement that starts COPY-in and reads until an error, a solver-chosen client message sequence and a solver-chosen point at which the handler stops: CopyInResponse announces the format per column, abort => exactly one ErrorResponse and one ReadyForQuery, success => CommandComplete ReadyForQuery, stray COPY messages afterwards are ignored without reply.",
